@@ -87,7 +87,7 @@ CHECKS.update({
                           "SelectorBase.wait / PollSelector / SelectSelector / KQueueSelector, session loop and parsers on a scaled-down BUFFER_SIZE, plus scenarios with the real constants (16 KiB records, "
                           "64 KiB buffer, bursts of B-1, B, B+1, 2B+1 bytes, 1000 frames per record); Mon_C18 (TLC) checks: no block with decrypted or unconsumed data, every message event and automatic "
                           "Pong at the virtual time its last byte arrived.",
-            "level_note": _NOTE + "The kernel/OpenSSL behaviour is modelled (record <= buffer, bursts of whole records, short TLS reads); the real-loopback supplement planned in the design is not built."},
+            "level_note": _NOTE + "The kernel/OpenSSL behaviour is modelled (record <= buffer, bursts of whole records, short TLS reads); a real-loopback supplement (plain TCP and TLS, thorough tier) is a sanity check only."},
     "C06": {"technique": "explicit block-granular TLA+ model of permessage-deflate (spec/Deflate.tla) checked by TLC (Lossless, ContextsInSync for every window / takeover combination; a window mismatch is found when the client ignores the negotiation); TLC-generated message histories replayed into the real code against an independent zlib RFC 7692 peer; traces judged by the TLA+ monitor Mon_C06 evaluated by TLC",
             "level_text": "TLC checks the LZ77/window/context-takeover model in both directions for every combination of windows and takeover flags and generates message histories (interleaved directions, "
                           "compressed/uncompressed, fragmentation); the harness runs each history under all 8x8x2x2 negotiated configurations (several spellings of the extension header), concretising "
